@@ -1004,3 +1004,117 @@ def definite_none_rule(m, rid, prefixes=("fparser.two", "fparser.common.readfort
         if key not in seen_exc:
             r.notes.append("exception %s.%s no longer needed (table entry stale)" % key)
     return r
+
+
+# ---------------------------------------------------------------------------------------------------------------
+# give-back is last-in first-out: what was read from the reader last is handed back first
+class LifoClient(F.Client):
+    """$stack: tuple of the local names that currently hold something read from the reader and not yet kept, oldest first."""
+
+    def __init__(self, keep):
+        self.keep = keep                   # name of the list whose elements are kept (content)
+        self.track = {"$stack"}
+        self.bad = []
+
+    @staticmethod
+    def stack(st):
+        v = st.get("$stack")
+        for a in v:
+            if a[0] == "c":
+                return a[1]
+        return ()
+
+    def push(self, st, name):
+        s = tuple(x for x in self.stack(st) if x != name) + (name,)
+        return st.set("$stack", F.const(s))
+
+    def drop(self, st, name):
+        return st.set("$stack", F.const(tuple(x for x in self.stack(st) if x != name)))
+
+    def restore(self, st, name, node):
+        s = self.stack(st)
+        if name in s and s[-1] != name:
+            self.bad.append((node, name, s[-1]))
+        return self.drop(st, name)
+
+    def call_effect(self, call, st):
+        fn = call.func
+        d = A.dotted(fn) or ""
+        if d.endswith("add_comments_includes_directives") and len(call.args) >= 2 and isinstance(call.args[0], ast.Name):
+            if call.args[0].id != self.keep:
+                return (self.push(st, call.args[0].id),)
+            return (st,)
+        if isinstance(fn, ast.Attribute) and fn.attr in ("append", "extend") and A.text(fn.value) == self.keep and call.args \
+                and isinstance(call.args[0], ast.Name):
+            return (self.drop(st, call.args[0].id),)
+        if isinstance(fn, ast.Attribute) and fn.attr == "restore_reader" and isinstance(fn.value, ast.Name):
+            return (self.restore(st, fn.value.id, call),)
+        return (st,)
+
+
+class LifoFlow(F.Flow):
+    def stmt(self, s, states, cur_exc):
+        c = self.c
+        # for X in reversed(L): X.restore_reader(reader)   -- hands back the whole of L
+        if isinstance(s, ast.For) and isinstance(s.iter, ast.Call) and A.dotted(s.iter.func) == "reversed" and s.iter.args \
+                and isinstance(s.iter.args[0], ast.Name) and len(s.body) == 1 \
+                and any(isinstance(n, ast.Call) and isinstance(n.func, ast.Attribute) and n.func.attr == "restore_reader"
+                        and A.text(n.func.value) == A.text(s.target) for n in ast.walk(s.body[0])):
+            out = F.Outcome()
+            for st in states:
+                out.normal.add(c.restore(st, s.iter.args[0].id, s))
+            return out
+        out = F.Flow.stmt(self, s, states, cur_exc)
+        # X = Cls(reader): X now holds the most recently read object (None when nothing matched: then nothing is held)
+        if isinstance(s, ast.Assign) and len(s.targets) == 1 and isinstance(s.targets[0], ast.Name) and isinstance(s.value, ast.Call) \
+                and s.value.args and isinstance(s.value.args[0], ast.Name) and s.value.args[0].id == "reader" \
+                and isinstance(s.value.func, ast.Name):
+            out.normal = {c.push(st, s.targets[0].id) for st in out.normal}
+        elif isinstance(s, ast.Assign) and len(s.targets) == 1 and isinstance(s.targets[0], ast.Name) and A.const(s.value, 1) is None:
+            out.normal = {c.drop(st, s.targets[0].id) for st in out.normal}
+        return out
+
+    def split(self, test, st, out=None):
+        a, b = F.Flow.split(self, test, st, out)
+        # `if X is None` / `if X is not None` / `if not X`: on the branch where X is None it holds nothing
+        name = None
+        if isinstance(test, ast.Compare) and len(test.ops) == 1 and isinstance(test.left, ast.Name) and A.const(test.comparators[0], 1) is None:
+            name, none_branch = test.left.id, ("t" if isinstance(test.ops[0], ast.Is) else "f")
+        elif isinstance(test, ast.UnaryOp) and isinstance(test.op, ast.Not) and isinstance(test.operand, ast.Name):
+            name, none_branch = test.operand.id, "t"
+        elif isinstance(test, ast.Name):
+            name, none_branch = test.id, "f"
+        if name is not None:
+            if none_branch == "t":
+                a = {self.c.drop(s_, name) for s_ in a}
+            else:
+                b = {self.c.drop(s_, name) for s_ in b}
+        return a, b
+
+
+def lifo_restore_rule(m, rid):
+    from sa.model import AnalysisError
+    r = RuleResult(rid, "what a reader-level matcher reads ahead it hands back in reverse order (path-sensitive stack of the local names that "
+                        "hold unread-back objects): restoring an earlier acquisition while a later one is still held puts the later one "
+                        "in front of it, so comments/includes overtake or fall behind the statement they belong to")
+    r.floor = 4
+    for (path, q), f in sorted(m.funcs.items()):
+        if not f.module.startswith("fparser.two") or "reader" not in A.param_names(f.node):
+            continue
+        if not any(isinstance(c, ast.Call) and isinstance(c.func, ast.Attribute) and c.func.attr == "restore_reader" for c in A.calls(f.node)):
+            continue
+        r.instances += 1
+        cl = LifoClient("content")
+        try:
+            LifoFlow(m, f, cl).run(F.State({"$stack": F.const(())}))
+        except AnalysisError as err:
+            r.undet("%s: %s" % (q, err))
+            continue
+        seen = set()
+        bad = [b for b in cl.bad if not (id(b[0]) in seen or seen.add(id(b[0])))]
+        r.ob(not bad, "%s: give-backs in reverse order of reading" % q)
+        for node, name, top in bad[:2]:
+            r.fail("%s|lifo|%s" % (q, name), "%s hands back `%s` while `%s`, which was read after it, is still held: `%s` then ends up in "
+                   "front of `%s` in the reader's queue, i.e. the stream is re-read in a different order (a comment lands inside or after "
+                   "the statement that followed it)" % (q, name, top, top, name), m.loc(f, node))
+    return r
